@@ -286,26 +286,34 @@ def main():
         n_enum = 200 if tier == "thorough" else 40
         for i in range(n_enum):
             k = rng.randint(1, 6)
+            # distinct enum types may carry the same name (a class statement executed twice, a factory function): every third
+            # type reuses one of a few names
+            tname = "E%d" % (i if i % 3 else i % 4)
             if rng.random() < 0.5:
                 vals = rng.sample(range(-20, 40), k)
-                E = enum.IntEnum("E%d" % i, [("m%d" % j, v) for j, v in enumerate(vals)])
+                E = enum.IntEnum(tname, [("m%d" % j, v) for j, v in enumerate(vals)])
                 members = vals
             else:
-                E = enum.Enum("E%d" % i, [("m%d" % j, "x%d" % j) for j in range(k)])
+                E = enum.Enum(tname, [("m%d" % j, "x%d" % j) for j in range(k)])
                 members = [None] * k
             from vsc.impl.enum_info import EnumInfo
-            ei = EnumInfo.get(E)
-            f = vsc.enum_t(E)
-            f.get_model()
-            rt = []
-            for m in E:
-                f.set_val(m)
-                rt.append(f.get_val() is m)
-            lst = vsc.list_t(vsc.enum_t(E))
-            for m in E:
-                lst.append(m)
-            rt_l = [lst[j] is m for j, m in enumerate(E)]
-            impl = {"vals": list(ei.enums), "e2v": [ei.e2v(m) for m in E], "v2e": [list(E).index(ei.v2e(v)) for v in ei.enums]}
+            try:
+                ei = EnumInfo.get(E)
+                f = vsc.enum_t(E)
+                f.get_model()
+                rt = []
+                for m in E:
+                    f.set_val(m)
+                    rt.append(f.get_val() is m)
+                lst = vsc.list_t(vsc.enum_t(E))
+                for m in E:
+                    lst.append(m)
+                rt_l = [lst[j] is m for j, m in enumerate(E)]
+                impl = {"vals": list(ei.enums), "e2v": [ei.e2v(m) for m in E], "v2e": [list(E).index(ei.v2e(v)) for v in ei.enums]}
+            except Exception as ex:
+                ck.oracle_fail("enum-exception:" + type(ex).__name__, {"members": members, "type_name": tname},
+                               "%s: %s" % (type(ex).__name__, str(ex)[:160]), "enum fields hold and return declared enumerators")
+                continue
             metas.append(({"members": members}, impl, rt, rt_l))
             reqs.append({"op": "v.enum", "members": members})
         res = drv.batch(reqs)
